@@ -509,12 +509,16 @@ def bvll_decode_total(d, n, part):
 @meta(bounds="every datagram of lo..hi octets (length and content symbolic; the function octet is picked from "
              "the instance's list of codes 0..11 or is any of 12..255) whose first octet is not 0x81 or whose "
              "length field differs from the number of octets received, or that is shorter than a header: must be "
-             "refused by AnnexJCodec.confirmation and by BVLPDU.decode",
-      outside="datagrams longer than hi",
+             "refused by AnnexJCodec.confirmation and by BVLPDU.decode.  Q: 0..64 octets; T: 0..200 octets, and "
+             "long datagrams of 576, 1404, 1476, 1501, 1507 octets whose first 16 octets are symbolic and the "
+             "rest a fixed pattern",
+      outside="datagrams of other lengths above hi",
       stubs=["socket.inet_aton/inet_ntoa (opaque dotted quad of symbolic octets)"], assumes=[])
-def bvll_header_guard(d, lo, hi, parts):
+def bvll_header_guard(d, lo, hi, parts, tails=None):
     part = d.pick(parts, 'part')
     data = draw_datagram(d, lo, hi, part)
+    if tails:
+        data = data + bytes([(7 * i + 3) % 256 for i in range(d.pick(tails, 'tail'))])
     why = R.header_fault(data)
     d.assume(why is not None)
     y, exc = receive(data)
@@ -609,13 +613,17 @@ def instances(tier):
     for fn in range(12):
         out.append(Inst(bvll_length_guard, dict(fn=fn), budget=b, label="fn=%d %s" % (fn, R.NAMES[fn])))
     out.append(Inst(bvlpdu_length_guard, dict(maxlen=16 if q else 300), budget=b))
-    n = 26 if q else 64
+    n = 26 if q else 104
     for part in range(13):
         out.append(Inst(bvll_decode_total, dict(n=n, part=part), budget=b,
                         label="n=%d,fn=%s" % (n, "%d %s" % (part, R.NAMES[part]) if part < 12 else "other")))
-    for parts in ([[0, 1, 2, 3], [4, 5, 6, 7], [8, 9, 10, 11], [12]] if q else [[k] for k in range(13)]):
-        hi = 64 if q else 1600
+    hi = 64 if q else 200
+    for parts in ([0, 1, 2, 3], [4, 5, 6, 7], [8, 9, 10, 11], [12]):
         out.append(Inst(bvll_header_guard, dict(lo=0, hi=hi, parts=parts), budget=b,
                         label="0..%d octets,fn=%s" % (hi, ",".join(str(k) if k < 12 else "other" for k in parts))))
+    if not q:
+        out.append(Inst(bvll_header_guard, dict(lo=16, hi=16, parts=list(range(13)),
+                                                tails=[576 - 16, 1404 - 16, 1476 - 16, 1501 - 16, 1507 - 16]),
+                        budget=b, label="576/1404/1476/1501/1507 octets,fn=any"))
     out.append(Inst(ip_forms, {}, budget=b))
     return out
